@@ -1,0 +1,434 @@
+//go:build verif
+
+package engine
+
+// Read-only accessors over unexported engine state for the verification harness in /verif.
+// Compiled only with `-tags verif`; nothing here is referenced by the engine itself.
+
+import (
+	"fmt"
+	"sort"
+	"strings"
+	"time"
+)
+
+func verifPieceChar(p piece) byte {
+	switch p {
+	case NullPiece:
+		return '.'
+	case WPawn:
+		return 'P'
+	case WKnight:
+		return 'N'
+	case WBishop:
+		return 'B'
+	case WRook:
+		return 'R'
+	case WQueen:
+		return 'Q'
+	case WKing:
+		return 'K'
+	case BPawn:
+		return 'p'
+	case BKnight:
+		return 'n'
+	case BBishop:
+		return 'b'
+	case BRook:
+		return 'r'
+	case BQueen:
+		return 'q'
+	case BKing:
+		return 'k'
+	}
+	return '?'
+}
+
+func verifSortedSquares(sq []square) string {
+	xs := make([]int, len(sq))
+	for i, s := range sq {
+		xs[i] = int(s)
+	}
+	sort.Ints(xs)
+	var sb strings.Builder
+	for i, x := range xs {
+		if i > 0 {
+			sb.WriteByte(',')
+		}
+		fmt.Fprintf(&sb, "%d", x)
+	}
+	return sb.String()
+}
+
+// Canonical snapshot of a position: board a1..h8 (64 chars), number of non-empty off-board slots,
+// flags, ep square, ply, king squares, and the four lists as sorted multisets of 0x88 squares.
+func VerifSnapshotPos(pos *Position) string {
+	var b [64]byte
+	off := 0
+	for i, p := range pos.board {
+		if i&0x88 != 0 {
+			if p != NullPiece {
+				off++
+			}
+			continue
+		}
+		b[(i>>4)*8+(i&7)] = verifPieceChar(p)
+	}
+	return fmt.Sprintf("B=%s off=%d f=%d ep=%d ply=%d wk=%d bk=%d wN=%s wP=%s bN=%s bP=%s",
+		string(b[:]), off, pos.flags, pos.enPassSquare, pos.ply, pos.whiteKing, pos.blackKing,
+		verifSortedSquares(pos.whitePieces.squares[:verifClamp(int(pos.whitePieces.size), pieceCap)]),
+		verifSortedSquares(pos.whitePawns.squares[:verifClamp(int(pos.whitePawns.size), pawnCap)]),
+		verifSortedSquares(pos.blackPieces.squares[:verifClamp(int(pos.blackPieces.size), pieceCap)]),
+		verifSortedSquares(pos.blackPawns.squares[:verifClamp(int(pos.blackPawns.size), pawnCap)]))
+}
+
+func verifClamp(n, hi int) int {
+	if n < 0 {
+		return 0
+	}
+	if n > hi {
+		return hi
+	}
+	return n
+}
+
+// Snapshot of the UCI layer's current position ("" when none), and the stack index.
+func VerifPosGenSnapshot() (string, int) {
+	if posGen == nil {
+		return "", -1
+	}
+	return VerifSnapshotPos(posGen.getTopPos()), int(posGen.plyIdx)
+}
+
+func VerifSnapshot(gen *Generator) string { return VerifSnapshotPos(gen.getTopPos()) }
+
+func VerifPlyIdx(gen *Generator) int { return int(gen.plyIdx) }
+
+// Strict list<->board bijection check on the engine's own data (independent of the model).
+func VerifConsistent(pos *Position) string {
+	seen := map[square]bool{}
+	chk := func(name string, sqs []square, ok func(piece) bool) string {
+		for _, s := range sqs {
+			if s&0x88 != 0 {
+				return name + ": off-board square"
+			}
+			if seen[s] {
+				return name + ": duplicate square"
+			}
+			seen[s] = true
+			if !ok(pos.board[s]) {
+				return fmt.Sprintf("%s: board has %d at %d", name, pos.board[s], s)
+			}
+		}
+		return ""
+	}
+	isPieceOf := func(c piece) func(piece) bool {
+		return func(p piece) bool {
+			k := p & ColorlessPiece
+			return p&c != 0 && (k == Knight || k == Bishop || k == Rook || k == Queen)
+		}
+	}
+	if pos.whitePieces.size < 0 || int(pos.whitePieces.size) > pieceCap || pos.blackPieces.size < 0 ||
+		int(pos.blackPieces.size) > pieceCap || pos.whitePawns.size < 0 || int(pos.whitePawns.size) > pawnCap ||
+		pos.blackPawns.size < 0 || int(pos.blackPawns.size) > pawnCap {
+		return "list size out of range"
+	}
+	if m := chk("whitePieces", pos.whitePieces.squares[:pos.whitePieces.size], isPieceOf(WhitePieceBit)); m != "" {
+		return m
+	}
+	if m := chk("blackPieces", pos.blackPieces.squares[:pos.blackPieces.size], isPieceOf(BlackPieceBit)); m != "" {
+		return m
+	}
+	if m := chk("whitePawns", pos.whitePawns.squares[:pos.whitePawns.size], func(p piece) bool { return p == WPawn }); m != "" {
+		return m
+	}
+	if m := chk("blackPawns", pos.blackPawns.squares[:pos.blackPawns.size], func(p piece) bool { return p == BPawn }); m != "" {
+		return m
+	}
+	if m := chk("whiteKing", []square{pos.whiteKing}, func(p piece) bool { return p == WKing }); m != "" {
+		return m
+	}
+	if m := chk("blackKing", []square{pos.blackKing}, func(p piece) bool { return p == BKing }); m != "" {
+		return m
+	}
+	for i, p := range pos.board {
+		if p == NullPiece {
+			continue
+		}
+		if i&0x88 != 0 {
+			return "off-board slot not empty"
+		}
+		if !seen[square(i)] {
+			return fmt.Sprintf("board has %d at %d which is on no list", p, i)
+		}
+	}
+	return ""
+}
+
+func verifMoveString(m Move) string {
+	s := m.String()
+	if m.enPassant != InvalidSquare {
+		s += "@" + m.enPassant.String()
+	}
+	return s
+}
+
+func verifMoves(ms []rankedMove) []string {
+	out := make([]string, len(ms))
+	for i, m := range ms {
+		out[i] = verifMoveString(m.mov)
+	}
+	return out
+}
+
+// Moves with their tactical flag, in generation order: used to check that the flag the search reads
+// (killer update, ordering) marks exactly captures and promotions.
+func VerifGenFlags(gen *Generator) []string {
+	ms := gen.GenerateMoves()
+	out := make([]string, len(ms))
+	for i, m := range ms {
+		out[i] = fmt.Sprintf("%s:%d", m.mov.String(), m.flags&mFlagTactical)
+	}
+	return out
+}
+
+func VerifGen(gen *Generator) []string         { return verifMoves(gen.GenerateMoves()) }
+func VerifGenTactical(gen *Generator) []string { return verifMoves(gen.GenerateTacticalMoves()) }
+func VerifCount(gen *Generator) int            { return gen.getTopPos().countMoves() }
+func VerifCountTactical(gen *Generator) int    { return gen.getTopPos().countTacticalMoves() }
+func VerifInCheck(gen *Generator) bool         { return gen.getTopPos().isCurrentKingUnderCheck() }
+func VerifWhiteToMove(gen *Generator) bool     { return gen.getTopPos().flags&FlagWhiteTurn != 0 }
+func VerifPly(gen *Generator) int              { return int(gen.getTopPos().ply) }
+
+// Finds the generated legal move with this UCI string (promotion letter lower case).
+func VerifFindMove(gen *Generator, s string) (Move, bool) {
+	for _, m := range gen.GenerateMoves() {
+		if m.mov.String() == s {
+			return m.mov, true
+		}
+	}
+	return Move{}, false
+}
+
+// PushMove followed by PopMove; reports the snapshot in between and whether the slot the generator
+// returned to is bit-for-bit what it was (whole struct, stale list tails included).
+func VerifPushPop(gen *Generator, m Move) (mid string, identical bool) {
+	before := *gen.getTopPos()
+	idx := gen.plyIdx
+	gen.PushMove(m)
+	mid = VerifSnapshotPos(gen.getTopPos())
+	gen.PopMove()
+	identical = gen.plyIdx == idx && *gen.getTopPos() == before
+	return
+}
+
+func VerifPush(gen *Generator, m Move) { gen.PushMove(m) }
+func VerifPop(gen *Generator)          { gen.PopMove() }
+
+// MakeMove on a copy of the top position with an arbitrary (from, to, promo, ep) move.
+func VerifMakeMoveRaw(gen *Generator, from, to, promo, ep int) (string, bool) {
+	p := *gen.getTopPos()
+	ok := p.MakeMove(Move{square(from), square(to), piece(promo), square(ep)})
+	return VerifSnapshotPos(&p), ok
+}
+
+// Is square dest attacked by the given colour in the top position (the call isUnderCheck gets from MakeMove).
+func VerifIsAttacked(gen *Generator, dest int, byWhite bool) bool {
+	pos := gen.getTopPos()
+	if byWhite {
+		return pos.isUnderCheck(pos.whitePieces, pos.whitePawns, pos.whiteKing, square(dest))
+	}
+	return pos.isUnderCheck(pos.blackPieces, pos.blackPawns, pos.blackKing, square(dest))
+}
+
+// Builds a position from a 64-character placement (a1..h8, FEN letters, '.' empty) without going
+// through the FEN loader; lists are filled in square order.
+func VerifPositionFromPlacement(placement string, whiteToMove bool) *Generator {
+	pos := Position{enPassSquare: InvalidSquare}
+	for i := 0; i < 64 && i < len(placement); i++ {
+		p := charToPiece(rune(placement[i]))
+		if p == NullPiece {
+			continue
+		}
+		sq := square((i/8)<<4 | i%8)
+		pos.board[sq] = p
+		switch {
+		case p == WKing:
+			pos.whiteKing = sq
+		case p == BKing:
+			pos.blackKing = sq
+		case p == WPawn:
+			pos.whitePawns.appendPawn(sq)
+		case p == BPawn:
+			pos.blackPawns.appendPawn(sq)
+		case p&WhitePieceBit != 0:
+			pos.whitePieces.appendPiece(sq)
+		default:
+			pos.blackPieces.appendPiece(sq)
+		}
+	}
+	if whiteToMove {
+		pos.flags |= FlagWhiteTurn
+	}
+	stack := make([]Position, plyBufferCapacity)
+	stack[0] = pos
+	return &Generator{posStack: stack, movStack: newMoveStack()}
+}
+
+// (full evaluation, material+piece-square part) for the top position; the node counter is restored.
+func VerifEvalParts(gen *Generator) (full int, cheap int) {
+	saved := evaluatedNodes
+	pos := gen.getTopPos()
+	full = Evaluate(pos, 0)
+	cheap = pieceSquareScore(pos, gamePhaseFactor(pos))
+	evaluatedNodes = saved
+	return
+}
+
+func VerifLazyEval(gen *Generator, depth, alpha, beta int) int {
+	saved := evaluatedNodes
+	v := LazyEvaluate(gen.getTopPos(), depth, alpha, beta)
+	evaluatedNodes = saved
+	return v
+}
+
+// The king-table blend exactly as pieceSquareScore computes it.
+func VerifBlend(materialSum int, mid, end int) int {
+	g := float64(materialSum) / StartingSumOfMaterial
+	return int(g*float64(mid) + (1.0-g)*float64(end))
+}
+
+func VerifTables() (attack []int, direction []int) {
+	for _, a := range attackTable {
+		attack = append(attack, int(a))
+	}
+	for _, d := range directionTable {
+		direction = append(direction, int(byte(d)))
+	}
+	return
+}
+
+func VerifPst() map[string][]int {
+	conv := func(t []int8) []int {
+		out := make([]int, len(t))
+		for i, v := range t {
+			out[i] = int(v)
+		}
+		return out
+	}
+	return map[string][]int{
+		"PawnsWhite": conv(sqTablePawnsWhite[:]), "PawnsBlack": conv(sqTablePawnsBlack[:]),
+		"KnightsWhite": conv(sqTableKnightsWhite[:]), "KnightsBlack": conv(sqTableKnightsBlack[:]),
+		"BishopsWhite": conv(sqTableBishopsWhite[:]), "BishopsBlack": conv(sqTableBishopsBlack[:]),
+		"RooksWhite": conv(sqTableRooksWhite[:]), "RooksBlack": conv(sqTableRooksBlack[:]),
+		"QueensWhite": conv(sqTableQueensWhite[:]), "QueensBlack": conv(sqTableQueensBlack[:]),
+		"KingMidgameWhite": conv(sqTableKingMidgameWhite[:]), "KingMidgameBlack": conv(sqTableKingMidgameBlack[:]),
+		"KingEndgameWhite": conv(sqTableKingEndgameWhite[:]), "KingEndgameBlack": conv(sqTableKingEndgameBlack[:]),
+	}
+}
+
+func VerifKingDirections() []int {
+	out := []int{}
+	for _, d := range kingDirections {
+		out = append(out, int(byte(d)))
+	}
+	return out
+}
+
+func VerifStartSnapshot() string {
+	p := NewPosition()
+	return VerifSnapshotPos(&p)
+}
+
+func VerifParseMove(s string) (from, to, promo int, err error) {
+	m, e := parseMoveString(s)
+	return int(m.from), int(m.to), int(m.promoteTo), e
+}
+
+func VerifMoveString(from, to, promo int) string {
+	return Move{square(from), square(to), piece(promo), InvalidSquare}.String()
+}
+
+func VerifFormatScore(score int) string { return formatScore(score) }
+
+// Milliseconds allotted by calcEndtime for the given clocks with the side to move of the current position.
+func VerifCalcEndtime(blackLeft, blackInc, whiteLeft, whiteInc, movesToGo int) int64 {
+	start := time.Unix(1_000_000, 0)
+	end := calcEndtime(start, blackLeft, blackInc, whiteLeft, whiteInc, movesToGo)
+	return end.Sub(start).Milliseconds()
+}
+
+func VerifSetPosGen(gen *Generator) { posGen = gen }
+
+func VerifKillersNonEmpty() int {
+	n := 0
+	for _, k := range killerMoves {
+		if k[0] != (Move{}) || k[1] != (Move{}) {
+			n++
+		}
+	}
+	return n
+}
+
+func VerifNodes() int64 { return evaluatedNodes }
+
+type VerifIter struct {
+	Depth    int
+	Score    int
+	OneLegal bool
+	Pv       []string
+	Nodes    int64
+	// number of lazy-evaluation shortcuts taken in this iteration, and how many of them were wrong
+	// (|full - cheap| > fullEvalScoreMargin at that node)
+	LazyCuts, LazyWrong int64
+}
+
+// Runs the root search for depth 1..maxDepth on gen the way StartIterativeDeepening sequences it
+// (previous best line as the ordering hint), without clock or stop, and reports every iteration.
+func VerifSearch(gen *Generator, maxDepth int) []VerifIter {
+	s := NewSearch()
+	s.interrupted = false
+	evaluatedNodes = 0
+	far := time.Now().Add(1000 * time.Hour)
+	start := time.Now()
+	line := &Line{}
+	var out []VerifIter
+	VerifLazyProbe = true
+	defer func() { VerifLazyProbe = false }()
+	for d := 1; d <= maxDepth; d++ {
+		VerifLazyCuts, VerifLazyWrong = 0, 0
+		score, one := s.startAlphaBeta(gen, d, &s.bestLineAtDepth[0], line, start, far)
+		copyBestLine(line, s.bestLineAtDepth[0])
+		pv := make([]string, len(line.moves))
+		for i, m := range line.moves {
+			pv[i] = m.String()
+		}
+		out = append(out, VerifIter{d, score, one, pv, evaluatedNodes, VerifLazyCuts, VerifLazyWrong})
+	}
+	return out
+}
+
+var VerifLazyProbe bool
+var VerifLazyCuts, VerifLazyWrong int64
+
+const VerifFullEvalScoreMargin = fullEvalScoreMargin
+
+// Full evaluation of a node at which the lazy shortcut was taken, computed without touching the node counter.
+func verifLazyCutProbe(pos *Position, cheap int) {
+	VerifLazyCuts++
+	saved := evaluatedNodes
+	full := cheap
+	own := pos.countMoves() * MobilityScoreFactor
+	if own == 0 {
+		full = DrawScore
+	} else {
+		pos.flags ^= FlagWhiteTurn
+		enemy := pos.countMoves() * MobilityScoreFactor
+		pos.flags ^= FlagWhiteTurn
+		full = cheap + own - enemy
+	}
+	evaluatedNodes = saved
+	if abs(full-cheap) > fullEvalScoreMargin {
+		VerifLazyWrong++
+	}
+}
